@@ -930,6 +930,12 @@ func ParseFile(data []byte) (*XFile, error) {
 			}
 			pairs = append(pairs, pair{uint32(a), b})
 		}
+		// the last offset must be a token of its own: if the byte at /First
+		// continues it (a regular character), a reader that tokenises the table from the
+		// start of the data reads another number
+		if n > 0 && first < int64(len(body)) && first > 0 && body[first-1] >= '0' && body[first-1] <= '9' && !IsPDFSpace(body[first]) && !strings.ContainsRune("()<>[]{}/%", rune(body[first])) {
+			return f, xerr(so.Start, "object stream %d: the last offset of the table and the first member form one token (%q)", sn, body[max(0, first-6):min(int64(len(body)), first+6)])
+		}
 		hl.SkipWS()
 		if !hl.eof() {
 			return f, xerr(so.Start, "object stream %d: extra data in the header before /First", sn)
